@@ -234,7 +234,7 @@ def exec (svc storeSame : Bool) (s : State) (t : Tid) (th : Thread) (i : Instr) 
         match s.watchers th.w with
         | some wt => some { setThread s t { th with a := { th.a with hw := false, chk := false } } with
                             watchers := upd s.watchers th.w (some { wt with mu := none }) }
-        | none => some (setThread s t th)
+        | none => none
       else some (setThread s t th)
     | .unlockT =>
       if th.a.ht then some { setThread s t { th with a := { th.a with ht := false } } with tmu := none }
